@@ -340,6 +340,9 @@ pub enum Op {
         proto: Proto,
         layer: Layer,
         now_ns: Ns,
+        /// seed of the builder's internal hash maps
+        #[serde(default)]
+        hash_seed: u64,
     },
     BuilderOp {
         b: u32,
